@@ -74,6 +74,27 @@ func lifecycleOne(cooldownMs int, seed int) string {
 		inflight.Add(1)
 		go func() { defer inflight.Done(); c1.Get(gctx) }()
 		closers = append(closers, gcancel)
+		if r.Chance(70) {
+			// inspection calls on the consumer whose Get is blocked, racing with the closes: they may wait for the Get,
+			// but must never keep Close from completing
+			time.Sleep(200 * time.Microsecond)
+			for _, k := range []int{r.Intn(3), r.Intn(3)} {
+				k := k
+				inflight.Add(1)
+				go func() {
+					defer inflight.Done()
+					switch k {
+					case 0:
+						b.Diff(c1)
+					case 1:
+						b.Range(bg, c1, func(index int, value interface{}) bool { return true })
+					default:
+						b.Size()
+						b.Diff(c2)
+					}
+				}()
+			}
+		}
 	}
 	closers = append(closers, func() { c2.Close() }, func() {
 		b.Close()
@@ -175,10 +196,10 @@ func lifecycleOne(cooldownMs int, seed int) string {
 	}
 	stuck := !waitTimeout(&cw, stepTimeout)
 	rootCancel()
-	c1.Rollback()
-	c1.Close()
-	inflight.Wait()
-	if stuck {
+	var fin sync.WaitGroup
+	fin.Add(1)
+	go func() { defer fin.Done(); c1.Rollback(); c1.Close(); inflight.Wait() }()
+	if !waitTimeout(&fin, stepTimeout) || stuck {
 		return "probes=- goroutines=stuck-closers"
 	}
 	// every handle is closed, every context cancelled, every call returned: no library goroutine may remain
